@@ -446,6 +446,27 @@ pub fn scalar_int_zoo(r: &B) -> Vec<Tagged> {
             }
         }
     }
+    // scalars whose *internal* (Montgomery) form k*2^256 mod r is short or has empty / full limbs while k
+    // itself is a full-size integer: code that inspects the length, the top limb or the bits of a scalar
+    // must look at the canonical integer, not at the stored words
+    if r.bits() <= 256 && r.bits() > 192 {
+        let fr = Fld::new(r.clone());
+        let big_r = (b(1) << 256) % r;
+        let rinv = fr.inv(&big_r).unwrap();
+        for m in [b(1), b(2), b(0xffff_ffff), b(1) << 32, (b(1) << 64) - b(1), b(1) << 64, (b(1) << 96) + b(5), (b(1) << 128) - b(1), b(1) << 128, (b(1) << 160) + b(9), (b(1) << 192) - b(1), b(1) << 192, (b(1) << 224) + b(3), r - b(1), (r - b(1)) >> 1] {
+            z.push((fr.mul(&m, &rinv), "internal-form-structured"));
+        }
+        // internal form with one empty 64-bit limb in the middle / at the bottom, others full
+        let full = (b(1) << 250) - b(1);
+        for pos in 0..4usize {
+            let mask = ((b(1) << 64) - b(1)) << (64 * pos);
+            let m = &full - (&full & &mask);
+            z.push((fr.mul(&(m % r), &rinv), "internal-form-structured"));
+        }
+        z.push((big_r.clone(), "internal-form-structured"));
+        z.push((fr.mul(&big_r, &big_r), "internal-form-structured"));
+        z.push((rinv.clone(), "internal-form-structured"));
+    }
     z
 }
 
